@@ -637,10 +637,14 @@ func c11exec(c *h.Ctx, cs *h.Case) {
 				}
 			}
 			c.Count("op=churn")
+			tLast := time.Now() // the last Done() may have scheduled the removal: from here on the clock counts
 			if !awaitFlushed() {
 				return false
 			}
 			cs.Impl = append(cs.Impl, obs())
+			if time.Since(tLast) > c11grace/3 {
+				slow = true
+			}
 		case len(tk) == 3 && tk[1] == "localstart":
 			k, _ := strconv.Atoi(tk[2])
 			if _, ok := tokens[k]; ok || k >= 1000 || (k >= 200 && k < 260) {
